@@ -143,11 +143,63 @@ def tla_mat(M):
     return np.array([[complex(g[0], g[1]) for g in row] for row in M], dtype=complex)
 
 
+# ranks of the named real-space matrices as the specification has them (SysAlg!RankOf); checked against the code by known_matrices()
+SPEC_RANKS = {"Ham": 0, "AA": 1, "BB": 1, "CC": 1, "SS": 1, "SH": 1, "OO": 1, "SHA": 2, "SA": 2, "SR": 2, "SHR": 2, "GG": 2, "FF": 2}
+SPEC_NAMES = ("BB", "CC", "SS", "SH", "OO", "SHA", "SA", "SR", "SHR", "GG", "FF")     # SysAlg!AllNames ('Ham' and 'AA' are H and X)
+_KNOWN = {}
+
+
+def known_matrices():
+    """names -> Cartesian rank of every real-space matrix the package knows, enumerated from the code (NeededData with every
+    option switched on, ranks from num_cart_dim); guarded: falls back on the specification's table"""
+    if _KNOWN:
+        return _KNOWN
+
+    def from_code():
+        from wannierberri.system.needed_data import NeededData
+        from wannierberri.system.system import num_cart_dim
+        names = set(NeededData(berry=True, morb=True, spin=True, SHCryoo=True, SHCqiao=True, OSD=True, qmetric=True, FF=True,
+                               keepOOGG=True, OOGG_to_FF=True).matrices)
+        return {n: int(num_cart_dim(n)) for n in names}
+    try:
+        code = from_code()
+    except Exception as ex:                                      # private helpers of the package: gone -> the specification's table
+        SKIPPED["known_matrices"] = f"{type(ex).__name__}: {ex}"[:200]
+        code = dict(SPEC_RANKS)
+    for n, r in code.items():
+        if n not in SPEC_RANKS:
+            SKIPPED[f"matrix_not_modelled:{n}"] = f"the package knows the real-space matrix {n} (rank {r}) that SysAlg!AllNames lacks"
+        elif SPEC_RANKS[n] != r:
+            SKIPPED[f"matrix_rank:{n}"] = f"rank {r} in the package, {SPEC_RANKS[n]} in SysAlg!RankOf"
+    _KNOWN.update({n: r for n, r in code.items() if SPEC_RANKS.get(n) == r})
+    for n in ("Ham", "AA"):
+        _KNOWN.setdefault(n, SPEC_RANKS[n])
+    return _KNOWN
+
+
+def named_names():
+    """the names besides Ham / AA that both the package and the specification know, in the order of SysAlg!AllNames"""
+    k = known_matrices()
+    return [n for n in SPEC_NAMES if n in k]
+
+
+def _parse_M(d):
+    M = d.get("M")
+    if not isinstance(M, dict):
+        return {}
+    return {str(n): {tuple(R): [tla_mat(c) for c in comps] for R, comps in per.items()} for n, per in M.items()}
+
+
 def sys_from_tla(d):
     rs = sorted(tuple(R) for R in d["rs"])
     return dict(nw=d["nw"], cen=np.array(d["cen"], dtype=int).reshape(d["nw"], 3), rs=rs,
                 H={R: tla_mat(d["H"][R]) for R in rs}, hasX=bool(d["hasX"]),
-                X={R: tla_mat(d["X"][R]) for R in rs}, spinor=bool(d["spinor"]))
+                X={R: tla_mat(d["X"][R]) for R in rs}, spinor=bool(d["spinor"]), M=_parse_M(d))
+
+
+def named_json(a, names):
+    """mats[i][r][c] for the record modules (order of names, of a['rs'], Cartesian components in C order)"""
+    return [[[mat_json(c) for c in a["M"][n][R]] for R in a["rs"]] for n in names]
 
 
 def soc_from_tla(d):
@@ -190,6 +242,10 @@ def build(a, periodic=(True, True, True), lattice=None):
     mats = {"Ham": ham}
     if a["hasX"]:
         mats["AA"] = {R: {(i, j): a["X"][R][i, j] * V3 for i in range(nw) for j in range(nw)} for R in a["rs"]}
+    for name, per in (a.get("M") or {}).items():              # the other named matrices: tensors of rank SPEC_RANKS[name] per orbital pair
+        cs = (3,) * SPEC_RANKS[name]
+        mats[name] = {R: {(i, j): np.array([c[i, j] for c in per[R]], dtype=complex).reshape(cs) for i in range(nw) for j in range(nw)}
+                      for R in a["rs"]}
     with quiet(), warnings.catch_warnings():
         warnings.simplefilter("ignore")
         s = System_R.from_sparse(lattice.copy(), wannier_centers_red=np.array(a["cen"], dtype=float) / CU, matrices=mats)
@@ -234,6 +290,13 @@ def project(s, scale=1.0):
         a["X"] = {R: x[i] for i, R in enumerate(rs)}
     else:
         a["X"] = {R: np.zeros((nw, nw), dtype=complex) for R in rs}
+    a["M"] = {}
+    for name in named_names():                                 # every other real-space matrix the system carries, by its public name
+        if s.has_R_mat(name):
+            x = _round_gauss(s.get_R_mat(name), name, scale)
+            if x.shape != (len(rs), nw, nw) + (3,) * SPEC_RANKS[name]:
+                raise NonIntegral(f"{name} has the shape {x.shape}")
+            a["M"][name] = {R: [x[i].reshape(nw, nw, -1)[:, :, c] for c in range(3 ** SPEC_RANKS[name])] for i, R in enumerate(rs)}
     views = {}
     for name, getter in (("cen_red", lambda: s.wannier_centers_red), ("shifts_left", lambda: s.rvec.shifts_left_red),
                          ("shifts_right", lambda: s.rvec.shifts_right_red)):
@@ -263,6 +326,17 @@ def diff_sys(exp, got, centres=True, mod_cell=False):
         e, g = _ext(exp["H"], es, R, nw), _ext(got["H"], gs, R, nw)
         if not np.array_equal(e, g):
             d.append(f"Ham({R}) expected {e.tolist()} got {g.tolist()}")
+    em, gm = exp.get("M") or {}, got.get("M") or {}
+    if not set(em) <= set(gm):                                 # (matrices the specification does not track for this case, e.g. SS, are not compared)
+        d.append(f"named matrices: expected {sorted(em)} got {sorted(gm)}")
+    for name in sorted(set(em) & set(gm)):
+        for R in sorted(es | gs):
+            for c in range(3 ** SPEC_RANKS[name]):
+                e = em[name][R][c] if R in es else np.zeros((nw, nw))
+                g = gm[name][R][c] if R in gs else np.zeros((nw, nw))
+                if not np.array_equal(e, g):
+                    d.append(f"{name}({R}) Cartesian component {c}: expected {np.asarray(e).tolist()} got {np.asarray(g).tolist()}")
+                    break
     if exp["hasX"] != got["hasX"]:
         d.append(f"second matrix present: expected {exp['hasX']} got {got['hasX']}")
     elif exp["hasX"]:
@@ -287,7 +361,8 @@ def permute_sys(a, q):
     """abstract system with new index i = old index q[i]"""
     q = list(q)
     ix = np.ix_(q, q)
-    return dict(a, cen=np.asarray(a["cen"])[q], H={R: a["H"][R][ix] for R in a["rs"]}, X={R: a["X"][R][ix] for R in a["rs"]})
+    return dict(a, cen=np.asarray(a["cen"])[q], H={R: a["H"][R][ix] for R in a["rs"]}, X={R: a["X"][R][ix] for R in a["rs"]},
+                M={n: {R: [c[ix] for c in per[R]] for R in a["rs"]} for n, per in (a.get("M") or {}).items()})
 
 
 # ------------------------------------------------------------------ observation on the real code
@@ -361,7 +436,7 @@ def cp_ints(eigs, what):
 def op_rotate(s, U):
     """X'(R) = U^dagger X(R) U for every real-space matrix (what a user does to change the basis); public API only"""
     Ud = U.conj().T
-    for key in KNOWN_KEYS:
+    for key in sorted(set(KNOWN_KEYS) | set(known_matrices())):
         if not s.has_R_mat(key):
             continue
         X = s.get_R_mat(key)
